@@ -20,7 +20,7 @@ func c17Cfg(tier string) c17.Config {
 		"fwd3 u2 delegate v0 2 | vote 1 1", "fwd3 u2 vote 1 3 | delegate v1 1", "fwd3 u2 delegate v0 2 | vote 7 1", "fwd3 u2 wvote 1 1:60,3:40 | undelegate v0 1",
 		"fake u2 delegate v0 5", "fake u2 undelegate v0 1", "fake u2 vote 1 1",
 		"eoa u2 vote 1 1", "eoa u2 vote 1 3", "eoa u2 vote 1 9", "eoa u2 vote 7 1", "eoa u2 wvote 1 1:60,3:40", "eoa u2 wvote 1 1:60,3:30", "eoa u2 wvote 1 1:100", "fwd u2 vote 1 2",
-		"advance",
+		"advance", "slash",
 	}}
 	if tier == "thorough" {
 		c.Depth = 8
@@ -39,7 +39,7 @@ func init() {
 			}
 			return bfs.Spec{Name: "C17", New: func() bfs.System { return c17.New(cfg) }, MaxDepth: cfg.Depth, Deadline: d}
 		},
-		rule: "explicit-state BFS on one real chain with two validators: sequences of real EVM transactions calling the Staking / Gov system contracts directly (EOA), through a hand-assembled forwarder contract that first writes its own storage (nested call, delegator = contract), through forwarders performing two calls in one transaction (same contract twice; a staking call and a governance call in either order, so that each hook sees a foreign event before or after its own), and through a look-alike contract emitting byte-identical events from a foreign address; arguments valid / unknown and malformed validator / amount 0 / above balance / unknown proposal / invalid option / weights not summing to 1; plus advancing past the voting period (deposit burn). Reference model of delegations and votes per actor; failures must leave balances, delegations, votes and the forwarder's storage unchanged; total supply constant after every step",
+		rule: "explicit-state BFS on one real chain with two validators: sequences of real EVM transactions calling the Staking / Gov system contracts directly (EOA), through a hand-assembled forwarder contract that first writes its own storage (nested call, delegator = contract), through forwarders performing two calls in one transaction (same contract twice; a staking call and a governance call in either order, so that each hook sees a foreign event before or after its own), and through a look-alike contract emitting byte-identical events from a foreign address; arguments valid / unknown and malformed validator / amount 0 / above balance / unknown proposal / invalid option / weights not summing to 1; plus advancing past the voting period (deposit burn or refund) and a slash of a validator with unbonding entries (burns from the bonded and the not-bonded pool). Reference model of delegations and votes per actor; failures must leave balances, delegations, votes and the forwarder's storage unchanged; total supply constant after every step",
 		assume: []string{"cosmos-sdk staking/gov/distribution are trusted; 1:1 share rate (no slashing in the horizon)", "the packet-call-data path into the staking contract is exercised by a scripted relay history (shared with C03's hookfail kind)"},
 		bounds: func(tier string) map[string]interface{} {
 			c := c17Cfg(tier)
